@@ -136,7 +136,14 @@ fn verif_api_replay() {
                         Err(_) => json!({"outcome": "panic-in-caller"}),
                         Ok(Err(e)) => json!({"outcome": "error", "error": format!("{:?}", e)}),
                         Ok(Ok(res)) => json!({"outcome": "ok", "colnames": res.colnames,
-                            "rows": res.rows.as_ref().map(|rows| rows.iter().map(|r| r.iter().map(val_json).collect::<Vec<_>>()).collect::<Vec<_>>())}),
+                            "rows": res.rows.as_ref().map(|rows| rows.iter().map(|r| r.iter().map(val_json).collect::<Vec<_>>()).collect::<Vec<_>>()),
+                            "columns": res.columns.iter().map(|(n, c)| json!([n, match c {
+                                locustdb::BasicTypeColumn::Int(v) => json!({"Int": v.iter().map(|x| format!("i:{}", x)).collect::<Vec<_>>()}),
+                                locustdb::BasicTypeColumn::Float(v) => json!({"Float": v.iter().map(|x| format!("fbits:{}", x.to_bits())).collect::<Vec<_>>()}),
+                                locustdb::BasicTypeColumn::String(v) => json!({"String": v}),
+                                locustdb::BasicTypeColumn::Null(k) => json!({"Null": k}),
+                                locustdb::BasicTypeColumn::Mixed(v) => json!({"Mixed": v.iter().map(val_json).collect::<Vec<_>>()}),
+                            }])).collect::<Vec<_>>()}),
                     });
                 });
                 match rx.recv_timeout(Duration::from_secs(30)) { Ok(j) => j, Err(_) => json!({"outcome": "no-answer-within-30s"}) }
